@@ -422,13 +422,13 @@ Proof.
     destruct (acct st <=? limit st)%Z; [apply (inv_acc_core st); auto|].
     pose proof (mark_stale_acc (Z.max (acct st / 20) (acct st - limit st)) st I) as M.
     destruct (mark_stale _ st) as [st1 n]. simpl in M. apply (inv_acc_core st1); auto.
-  - (* CleanCache *) inversion H; subst st'. destruct I as [A B D F G]. unfold clean_cache. split; simpl; auto.
+  - (* CleanCache *) rewrite clean_cache_v_repaired in H. inversion H; subst st'. destruct I as [A B D F G]. unfold clean_cache. split; simpl; auto.
     + intros e en' He. rewrite nth_error_map in He. destruct (nth_error (entries st) e) as [en|] eqn:E0; [|discriminate].
       simpl in He. inversion He; subst. destruct (A e en E0) as (X & Y & Z).
-      destruct (stale_in c (gens st) en); [|split; auto]. unfold ewf. simpl. auto.
-    + intros t th Ht. apply twf_map; auto. intros e. destruct (stale_in c (gens st) e); auto.
+      unfold delete_stale_in. destruct (stale_in c (gens st) en); [|split; auto]. unfold ewf. simpl. auto.
+    + intros t th Ht. apply twf_map; auto. intros e. unfold delete_stale_in. destruct (stale_in c (gens st) e); auto.
     + intros g Hg Hst. rewrite att_sum_map; auto.
-      intros e He. destruct (stale_in c (gens st) e) eqn:Hs; auto.
+      intros e He. unfold delete_stale_in. destruct (stale_in c (gens st) e) eqn:Hs; auto.
       unfold stale_in in Hs. apply andb_prop in Hs. destruct Hs as [_ Hs].
       unfold att_term. simpl. destruct (Nat.eqb_spec (egen e) g); [congruence|]. rewrite andb_false_r. auto.
   - inversion H; subst st'. apply (inv_acc_core st); auto.
